@@ -11,7 +11,7 @@
 (*          analysis with the arguments substituted (known = both evaluate)  *)
 (*   trip   the trip-count claim evaluated for the arguments, tripknown      *)
 (***************************************************************************)
-EXTENDS Integers, Sequences, TLC
+EXTENDS Integers, Sequences, TLC, Json, IOUtils
 
 Wrap(x, w) == IF w = 0 THEN x ELSE x % 256
 ValOf(h, v) == IF v = "i" THEN h.i ELSE h.s
@@ -27,7 +27,8 @@ LoopOK(e) == (\A j \in DOMAIN e.ivs : IVClaimOK(e, e.ivs[j])) /\ TripClaimOK(e)
 
 VARIABLES l, ok
 EvOK(e) == IF e.ev = "loop" THEN LoopOK(e) ELSE TRUE
-T == INSTANCE TraceStateless WITH EventOK <- EvOK
+TraceData == ndJsonDeserialize(IOEnv.TRACE)
+T == INSTANCE TraceStateless WITH EventOK <- EvOK, Trace <- TraceData
 Spec == T!TSSpec
 Accepted == T!TSAccepted
 =============================================================================
